@@ -31,29 +31,30 @@ func runC06Gaps2(c *eng.Ctx) {
 		if f == nil {
 			continue
 		}
-		ops := eng.Calls(f, `^<barrier\.View>\.`+w.op+`$`)
+		opS := nfPlain(nfSitesLocal(f, `^<barrier\.View>\.`+w.op+`$`))
 		succ := eng.SuccessReturns(f, 0)
-		if !c.Floor(f, "storage "+w.op, len(ops), 1) || !c.Floor(f, "nil-capable returns", len(succ), 1) {
+		if !c.Floor(f, "storage "+w.op, len(opS), 1) || !c.Floor(f, "nil-capable returns", len(succ), 1) {
 			continue
 		}
 		c.Clause("R2", "C06.8")
-		c.Cut(f, "nil return", succ, eng.GCallOK(f, `^<barrier\.View>\.`+w.op+`$`), nil)
-		for _, op := range ops {
+		nfCutOK(c, f, "nil return", succ, 0, nfOKOf("success edge of ^<barrier\\.View>\\."+w.op+"$", opS))
+		for _, e := range nfEffs(opS) {
+			op := e.Call.In
 			c.Clause("R5", "C06.8")
-			if arg := g2ViewArg(op, `vault\.\(\*ExpirationManager\)\.leaseView$`); arg == nil {
-				c.Violation(f, "view of the lease entry", op.Pos(), "the lease entry is not accessed through leaseView(ns)", nil)
+			if arg, afr := nfViewArg(e, `vault\.\(\*ExpirationManager\)\.leaseView$`); arg == nil {
+				c.Violation(e.Fn, "view of the lease entry", op.Pos(), "the lease entry is not accessed through leaseView(ns)", nil)
 			} else {
-				c.Prov(f, "namespace of the lease entry view", op, arg, `^field:le\.namespace$`)
+				nfProv(c, e.Fn, "namespace of the lease entry view", op, arg, afr, `^field:le\.namespace$`)
 			}
 			if w.op == "Delete" {
-				a := op.Common().Args
-				c.Prov(f, "key of the lease entry deleted", op, a[len(a)-1], `^field:le\.LeaseID$`)
+				a := e.Call.Args
+				nfProv(c, e.Fn, "key of the lease entry deleted", op, a[len(a)-1], e.Fr, `^field:le\.LeaseID$`)
 			}
-		}
-		if w.op == "Put" {
-			for _, st := range eng.Stores(f, `\.Key$`) {
-				c.Clause("R5", "C06.8")
-				c.Prov(f, "key of the lease entry written", st, st.Val, `^field:le\.LeaseID$`)
+			if w.op == "Put" {
+				for _, k := range c04PutKeys(e) {
+					c.Clause("R5", "C06.8")
+					nfProv(c, k.fn, "key of the lease entry written", k.at, k.v, k.fr, `^field:le\.LeaseID$`)
+				}
 			}
 		}
 	}
@@ -64,51 +65,48 @@ func runC06Gaps2(c *eng.Ctx) {
 		succ := eng.SuccessReturns(f, 0)
 		if c.Floor(f, "nil-capable returns", len(succ), 1) {
 			c.Clause("R2", "C06.9")
-			c.Cut(f, "nil return", succ, eng.GCallOK(f, `^<barrier\.View>\.Put$`), nil)
+			nfCutOK(c, f, "nil return", succ, 0, nfOKOf(`success edge of ^<barrier\.View>\.Put$`, nfSitesLocal(f, `^<barrier\.View>\.Put$`)))
 		}
 	}
 	if f := c.Fn("vault.(*ExpirationManager).removeIndexByToken"); f != nil {
-		dels := eng.Calls(f, `^<barrier\.View>\.Delete$`)
+		delS := nfPlain(nfSitesLocal(f, `^<barrier\.View>\.Delete$`))
 		succ := eng.SuccessReturns(f, 0)
-		if c.Floor(f, "index Delete", len(dels), 1) && c.Floor(f, "nil-capable returns", len(succ), 1) {
+		if c.Floor(f, "index Delete", len(delS), 1) && c.Floor(f, "nil-capable returns", len(succ), 1) {
 			c.Clause("R2", "C06.9")
-			c.Cut(f, "nil return", succ, eng.GCallOK(f, `^<barrier\.View>\.Delete$`), nil)
-			for _, d := range dels {
+			nfCutOK(c, f, "nil return", succ, 0, nfOKOf(`success edge of ^<barrier\.View>\.Delete$`, delS))
+			for _, e := range nfEffs(delS) {
+				d := e.Call.In
 				c.Clause("R5", "C06.9")
-				if arg := g2ViewArg(d, `vault\.\(\*ExpirationManager\)\.tokenIndexView$`); arg == nil {
-					c.Violation(f, "view the token->lease index entry is removed from", d.Pos(), "the index entry is not removed through tokenIndexView(ns)", nil)
+				if arg, afr := nfViewArg(e, `vault\.\(\*ExpirationManager\)\.tokenIndexView$`); arg == nil {
+					c.Violation(e.Fn, "view the token->lease index entry is removed from", d.Pos(), "the index entry is not removed through tokenIndexView(ns)", nil)
 				} else {
-					g2All(c, f, "namespace the token->lease index entry is removed from", d, g2NsOrigins(arg), "tokenIndexView(ns)", `^`+tokNSIn+`$`, `^`+rootGIn+`$`)
+					g2All(c, e.Fn, "namespace the token->lease index entry is removed from", d, g2NsOriginsF(arg, afr), "tokenIndexView(ns)", `^`+tokNSIn+`$`, `^`+rootGIn+`$`)
 				}
-				a := d.Common().Args
-				c.Prov(f, "key of the index entry removed", d, a[len(a)-1], `^call:vault\.\(\*TokenStore\)\.SaltID#0$`, `^const:"/"$`)
+				a := e.Call.Args
+				nfProv(c, e.Fn, "key of the index entry removed", d, a[len(a)-1], e.Fr, `^call:vault\.\(\*TokenStore\)\.SaltID#0$`, `^const:"/"$`)
 			}
-			for _, s := range eng.Calls(f, `vault\.\(\*TokenStore\)\.SaltID$`) {
+			for _, e := range nfEffs(nfSitesLocal(f, `vault\.\(\*TokenStore\)\.SaltID$`)) {
 				c.Clause("R5", "C06.9")
-				g2All(c, f, "context the removed key is salted in", s, g2CtxOrigins(s.Common().Args[1]), "SaltID(ctx, ...)", `^ctxNS\{`+tokNSIn+`\}$`, `^ctxNS\{`+rootGIn+`\}$`)
-				c.Prov(f, "ids salted for the removed key", s, s.Common().Args[2], `^param:token$`, `^field:le\.LeaseID$`)
+				g2All(c, e.Fn, "context the removed key is salted in", e.Call.In, g2CtxOriginsF(e.Call.Args[1], e.Fr), "SaltID(ctx, ...)", `^ctxNS\{`+tokNSIn+`\}$`, `^ctxNS\{`+rootGIn+`\}$`)
+				nfProv(c, e.Fn, "ids salted for the removed key", e.Call.In, e.Call.Args[2], e.Fr, `^param:token$`, `^field:le\.LeaseID$`)
 			}
 		}
 	}
 	// the rollback removes the index of the very token the index was created for
 	if f := c.Fn("vault.(*ExpirationManager).Register"); f != nil {
 		var idxVar *ssa.Alloc
-		cis := eng.Calls(f, `vault\.\(\*ExpirationManager\)\.createIndexByToken$`)
-		for _, ci := range cis {
-			if u, ok := ci.Common().Args[3].(*ssa.UnOp); ok {
-				if a, ok := u.X.(*ssa.Alloc); ok {
-					idxVar = a
-				}
+		for _, e := range nfEffs(nfSites(f, `vault\.\(\*ExpirationManager\)\.createIndexByToken$`)) {
+			if a := c06CellRead(e.Call.Args[3], e.Fr); a != nil {
+				idxVar = a
 			}
 		}
 		c.Clause("R5", "C06.9")
 		n := 0
 		for _, in := range eng.Instrs(f, func(in ssa.Instruction) bool { _, ok := in.(*ssa.Defer); return ok }) {
-			mc, ok := in.(*ssa.Defer).Call.Value.(*ssa.MakeClosure)
-			if !ok {
+			clo, _ := nfFuncValue(in.(*ssa.Defer).Call.Value)
+			if clo == nil || clo.Parent() != f {
 				continue
 			}
-			clo := mc.Fn.(*ssa.Function)
 			// the remover is called by the rollback closure itself or by a helper the closure always runs;
 			// the token it is handed is followed back to the variable it is read from
 			for _, e := range nfEffs(nfMust(clo, &nfFrame{call: in.(ssa.CallInstruction)}, nfNamed(`vault\.\(\*ExpirationManager\)\.removeIndexByToken$`), 2)) {
@@ -131,7 +129,7 @@ func runC06Gaps2(c *eng.Ctx) {
 		c.Clause("R2", "C06.10")
 		hasSecret := eng.CondEdges(f, `doRoutingIfApproved\(\)#0\.Secret == nil$`, false)
 		if c.Floor(f, "branches on resp.Secret != nil", len(hasSecret), 1) {
-			blocked := eng.GCallOK(f, `vault\.\(\*ExpirationManager\)\.Register$`).Edges
+			blocked := nfGCallOK(f, `vault\.\(\*ExpirationManager\)\.Register$`).Edges
 			blocked = append(blocked, eng.CondEdgesDeep(f, `^strings\.HasPrefix\(req\.Path, "sys/leases/renew"\)$`, true)...)
 			for _, b := range f.Blocks {
 				if ifi := eng.IfOf(b); ifi != nil {
@@ -152,7 +150,7 @@ func runC06Gaps2(c *eng.Ctx) {
 		isService := eng.CondEdges(f, `\.Auth\.TokenType == `+service+`$`, true)
 		if c.Floor(f, "service-token arm", len(isService), 1) {
 			site := "on{created token is a service token} response only across RegisterAuth success"
-			if h := eng.Reach(eng.Query{Fn: f, StartEdges: isService, Blocked: eng.GCallOK(f, `vault\.\(\*ExpirationManager\)\.RegisterAuth$`).Edges, Target: eng.IsTarget(eng.NonNilResultReturns(f, 0))}); h != nil {
+			if h := eng.Reach(eng.Query{Fn: f, StartEdges: isService, Blocked: nfGCallOK(f, `vault\.\(\*ExpirationManager\)\.RegisterAuth$`).Edges, Target: eng.IsTarget(eng.NonNilResultReturns(f, 0))}); h != nil {
 				c.Violation(f, site, h.Instr.Pos(), "handleRequest can hand out a freshly created service token without a successful expiration.RegisterAuth", h.Witness)
 			} else {
 				c.OK(f, site, isService[0].From.Instrs[len(isService[0].From.Instrs)-1].Pos(), "every non-nil response on the service-token arm crosses the success edge of RegisterAuth")
@@ -171,15 +169,15 @@ func runC06Gaps2(c *eng.Ctx) {
 		if f == nil {
 			continue
 		}
-		ras := eng.Calls(f, `vault\.\(\*ExpirationManager\)\.RegisterAuth$`)
+		ras := nfEffs(nfSites(f, `vault\.\(\*ExpirationManager\)\.RegisterAuth$`))
 		c.Floor(f, "RegisterAuth call", len(ras), 1)
-		for _, ra := range ras {
+		for _, e := range ras {
 			c.Clause("R5", "C06.12")
-			c.Prov(f, "persistLease handed to expiration.RegisterAuth", ra, ra.Common().Args[5], w.want)
+			nfProv(c, e.Fn, "persistLease handed to expiration.RegisterAuth", e.Call.In, e.Call.Args[5], e.Fr, w.want)
 		}
-		for _, cr := range eng.Calls(f, `vault\.\(\*TokenStore\)\.create$|vault\.\(\*Core\)\.CreateToken$`) {
+		for _, e := range nfEffs(nfSites(f, `vault\.\(\*TokenStore\)\.create$|vault\.\(\*Core\)\.CreateToken$`)) {
 			c.Clause("R5", "C06.12")
-			c.Prov(f, "persistToken handed to token creation", cr, cr.Common().Args[3], w.want)
+			nfProv(c, e.Fn, "persistToken handed to token creation", e.Call.In, e.Call.Args[3], e.Fr, w.want)
 		}
 	}
 }
